@@ -1,0 +1,32 @@
+//go:build verif
+
+package mongo
+
+import (
+	"github.com/bmeg/grip/gdbi"
+	"github.com/bmeg/grip/gripql"
+	"go.mongodb.org/mongo-driver/bson"
+	mgo "go.mongodb.org/mongo-driver/mongo"
+)
+
+// VerifCompile runs the aggregation-pipeline compiler for a graph name without a database connection and
+// returns the pipeline it built: result type, mark types and, when the native compiler was used, the
+// aggregation stages. Verification hook: compiled only with the `verif` build tag.
+func VerifCompile(graph string, stmts []*gripql.GraphStatement, opts *gdbi.CompileOptions) (gdbi.Pipeline, mgo.Pipeline, error) {
+	comp := &Compiler{db: &Graph{graph: graph}}
+	pipe, err := comp.Compile(stmts, opts)
+	if err != nil {
+		return nil, nil, err
+	}
+	if mp, ok := pipe.(*Pipeline); ok && len(mp.procs) > 0 {
+		if p, ok := mp.procs[0].(*Processor); ok {
+			return pipe, p.query, nil
+		}
+	}
+	return pipe, nil, nil
+}
+
+// VerifConvertHas exposes the has-expression to $match translation.
+func VerifConvertHas(e *gripql.HasExpression) bson.M {
+	return convertHasExpression(e, false)
+}
